@@ -1,7 +1,7 @@
 (* Driver entry for the designer front-end model (C04, C05, C15). *)
 From Coq Require Import List String Ascii Arith Bool.
 From Coq Require Import ZArith.
-From PC Require Import Base.Sexp Comp.Syntax Design.Designer Design.DesignerProofs SSM.Contract Run.RComp.
+From PC Require Import Base.Sexp Comp.Syntax Design.Designer Design.DesignerProofs SSM.Contract SSM.Search Run.RComp.
 Import ListNotations.
 Local Open Scope string_scope.
 
@@ -51,6 +51,17 @@ Definition run_files (req : sexp) : sexp :=
           | DOver => Li [At "over"]
           | DErr k => Li [At "err"; At k]
           end
+      | _, _ => bad_request
+      end
+  | _ => bad_request
+  end.
+
+(* C19: the validity predicate on a sequence printed by the real binary: (st wc eq S) *)
+Definition run_ssmvalid (req : sexp) : sexp :=
+  match req with
+  | Li [At st; wc; eq; At sq] =>
+      match dL dZ wc, dL dZ eq with
+      | Some w, Some e => sB (valid_output {| t_st := chars st; t_wc := w; t_eq := e |} (chars sq))
       | _, _ => bad_request
       end
   | _ => bad_request
